@@ -17,6 +17,33 @@ def showVar : Option Var → String
   | some v => L v.loc
   | none => "-"
 
+-- Locs of all function bodies of a chunk (for the function level of an occurrence)
+mutual
+partial def fnLocsE : Exp → List Loc
+  | .unop _ e _ => fnLocsE e
+  | .binop _ a b _ => fnLocsE a ++ fnLocsE b
+  | .table ks vs _ => ks.flatMap fnLocsE ++ vs.flatMap fnLocsE
+  | .func (.mk _ _ _ _ _ body l) => l :: fnLocsB body
+  | .parens e _ => fnLocsE e
+  | .index p k _ => fnLocsE p ++ fnLocsE k
+  | .call p _ a _ => fnLocsE p ++ a.flatMap fnLocsE
+  | _ => []
+partial def fnLocsB : Block → List Loc
+  | .mk ss ret _ => ss.flatMap fnLocsS ++ (match ret with | some es => es.flatMap fnLocsE | none => [])
+partial def fnLocsS : Stat → List Loc
+  | .do_ b _ => fnLocsB b
+  | .while_ c b _ => fnLocsE c ++ fnLocsB b
+  | .repeat_ b c _ => fnLocsB b ++ fnLocsE c
+  | .if_ cs bs _ => cs.flatMap fnLocsE ++ bs.flatMap fnLocsB
+  | .fornum _ _ i l s b _ => fnLocsE i ++ fnLocsE l ++ fnLocsE s ++ fnLocsB b
+  | .forin _ es b _ => es.flatMap fnLocsE ++ fnLocsB b
+  | .assign vs es _ => vs.flatMap fnLocsE ++ es.flatMap fnLocsE
+  | .local_ _ es _ => es.flatMap fnLocsE
+  | .localfn _ _ (.mk _ _ _ _ _ body l) _ => l :: fnLocsB body
+  | .callstat e => fnLocsE e
+  | _ => []
+end
+
 partial def allVars : Tree → List Var
   | .mk _ vs subs => vs ++ subs.flatMap allVars
 
@@ -35,8 +62,9 @@ def handle (cmd : String) (args : List String) : Option String :=
       let occs := bindChunk r.block
       let toccs := bindTraversal r.block
       let vars := allVars tree
+      let fns := fnLocsB r.block
       let items := occs.map fun o =>
-        let kind := if o.isDecl then "D" else if o.isWrite then "W" else "U"
+        let kind := if o.isDecl then "D" ++ o.dk else if o.isWrite then "W" else "U"
         let ms := defineAt tree o.name o.loc.sl o.loc.sc
         let me := defineAt tree o.name o.loc.el o.loc.ec
         -- class I: the resolver picked a variable whose declaring statement / loop header contains
@@ -67,15 +95,25 @@ def handle (cmd : String) (args : List String) : Option String :=
         let t := match toccs.find? (fun x => x.loc == o.loc) with
           | some x => showDecl x.decl
           | none => "?"
-        s!"{bytesToHex o.name}@{L o.loc},{kind},S={showDecl o.decl},Ms={showVar ms},Me={showVar me},K={cls ms}{cls me},T={t}"
+        s!"{bytesToHex o.name}@{L o.loc},{kind},S={showDecl o.decl},Ms={showVar ms},Me={showVar me},K={cls ms}{cls me},T={t},F={(fns.filter fun fl => Scope.isContainLoc fl o.loc).length},I={if o.init.isEmpty then "-" else o.init}"
       some ("OK " ++ ";".intercalate items)
   | "complete", [h, conv, line, col] =>
+    -- cursor just after an identifier that ends at (line, col): S = locals visible there under Lua's
+    -- rules (S-bind environment of that occurrence), M = GetCompleteVar's candidates
     match hexToBytes h, line.toInt?, col.toInt? with
     | some src, some line, some col =>
       let r := parseChunk src (LexOps.parseConv conv)
       if r.errs.size > 0 then some s!"ERR{r.errs.size}" else
       let tree := build r.block
-      some ("OK " ++ ",".intercalate ((completeAt tree line col).map bytesToHex))
+      let occs := bindChunk r.block
+      let sv := match occs.find? (fun o => !o.isDecl && o.loc.el == line && o.loc.ec == col) with
+        | some o => ",".intercalate (o.vis.eraseDups.map bytesToHex)
+        | none => "?"
+      let decls := (occs.filter (·.isDecl)).map (·.name) |>.eraseDups
+      let globals := (occs.filter (fun o => o.decl.isNone)).map (·.name) |>.eraseDups
+      -- class K1: declarations whose declaring statement / loop header contains the cursor
+      let k1 := (occs.filter (fun d => d.isDecl && Scope.isContainLoc d.region ⟨line, col, line, col⟩)).map (·.name) |>.eraseDups
+      some s!"OK S={sv} M={",".intercalate ((completeAt tree line col).map bytesToHex)} D={",".intercalate (decls.map bytesToHex)} G={",".intercalate (globals.map bytesToHex)} K={",".intercalate (k1.map bytesToHex)}"
     | _, _, _ => some "bad-op"
   | _, _ => none
 
